@@ -342,7 +342,11 @@ def gen_program(rng, extra=None, max_depth=3, n_partials=None, inherit=None, aut
     partials = {}
     for i, pn in enumerate(pnames):
         g = Gen(rng, extra, flags, pnames[i + 1 :], max_depth=2)
-        partials[pn] = g.block(1)
+        body = g.block(1)
+        if rng.chance(20):
+            # a bare interrupt at the top level of a partial: only meaningful (or an error) through the caller's loop
+            body = body + "{% " + rng.choice(["break", "continue"]) + " %}" + g.text() + g.output()
+        partials[pn] = body
     g = Gen(rng, extra, flags, pnames, max_depth=max_depth)
     src = g.block(0)
     inherit = (extra and rng.chance(25)) if inherit is None else inherit
